@@ -49,6 +49,9 @@ type Opts struct {
 
 	// SpecCheck: also abstract the run into actions of Spec/Raft.lean (static membership, BaseIndex 0)
 	SpecCheck bool `json:"spec_check"`
+	// SpecR: the run has membership changes and is abstracted into actions of Spec/Reconf.lean (BaseIndex 0; every
+	// node, also one that joins later, boots knowing the initial configuration)
+	SpecR bool `json:"spec_r,omitempty"`
 	// JointHeavy: configuration changes enter explicit joint configurations and leave them rarely; more reads
 	JointHeavy bool `json:"joint_heavy,omitempty"`
 	// Fuzz > 0: single-node fuzzing with that many steps instead of a cluster run (fuzz.go)
@@ -104,6 +107,7 @@ type Cluster struct {
 	Stats      map[string]int
 	TraceLog   []string
 	quiesce    bool
+	initCS     *pb.ConfState // the configuration the group starts with
 }
 
 // SpreadIDMul: i*SpreadIDMul for i in 1..7 covers the 64-bit id space (ids differ by >= 2^61, up to 0xE000...07)
@@ -144,20 +148,27 @@ func NewCluster(o Opts) *Cluster {
 	if o.MaxInflightMsgs == 0 {
 		o.MaxInflightMsgs = 8
 	}
-	if o.BaseIndex == 0 && !o.SpecCheck {
+	if o.SpecCheck {
+		o.SpecR = false
+	}
+	if o.BaseIndex == 0 && !o.SpecCheck && !o.SpecR {
 		o.BaseIndex = 2
 	}
 	if o.SpecCheck {
 		o.BaseIndex, o.ConfChanges = 0, false
 	}
+	if o.SpecR {
+		o.BaseIndex = 0
+	}
 	c := &Cluster{O: o, Rng: rand.New(rand.NewSource(o.Seed)), Nodes: map[uint64]*Node{}, Part: map[uint64]int{},
 		Rec: &Rec{Keep: o.KeepText}, Stats: map[string]int{}, snapsInFlight: map[[2]uint64]bool{}}
 	theDraws.rng = rand.New(rand.NewSource(o.Seed ^ 0x5eed))
 	c.Mon = newMonitor(c)
-	if o.SpecCheck {
+	if o.SpecCheck || o.SpecR {
 		c.Spec = newSpecTracer(c)
 	}
 	cs := &pb.ConfState{Voters: append([]uint64(nil), o.Voters...), Learners: append([]uint64(nil), o.Learners...)}
+	c.initCS = cs
 	all := append(append([]uint64(nil), o.Voters...), o.Learners...)
 	for pos, id := range all {
 		c.addNode(id, pos, cs, true)
@@ -186,6 +197,13 @@ func (c *Cluster) addNode(id uint64, pos int, cs *pb.ConfState, member bool) *No
 		}
 		n.InitConf = proto.Clone(cs).(*pb.ConfState)
 		applied = c.O.BaseIndex
+	} else if c.O.SpecR {
+		// a node that joins later boots from the bootstrap ConfState (index 0, term 0), like every initial member
+		snap := &pb.Snapshot{Metadata: &pb.SnapshotMetadata{Index: new(uint64(0)), Term: new(uint64(0)), ConfState: proto.Clone(c.initCS).(*pb.ConfState)}}
+		if err := st.ApplySnapshot(snap); err != nil {
+			panic(err)
+		}
+		n.InitConf = proto.Clone(c.initCS).(*pb.ConfState)
 	} else {
 		n.InitConf = &pb.ConfState{}
 	}
